@@ -388,6 +388,7 @@ class Program(object):
                 call = b.elems[idx]
                 cur.elems += [clone_ev(e) for e in b.elems[start:idx + 1]]
                 cur.elems[-1]["inlined"] = gflat.id
+                nf.__dict__.setdefault("inlined_funcs", set()).update({g.id} | set(getattr(gflat, "inlined_funcs", ())))
                 # the caller branches on what the helper returned: which of the helper's paths goes with which branch is not modelled
                 t_ = b.term or {}
                 if idx == len(b.elems) - 1 or all(x["k"] in ("cast", "use") for x in b.elems[idx + 1:]):
@@ -516,7 +517,9 @@ class Program(object):
         return func
 
     def lambdas_in(self, func):
-        return [f for f in self.funcs.values() if f.parent == func.id]
+        # for a flattened function: also the lambdas written in the helpers that were expanded into it
+        owners = {func.id} | set(getattr(func, "inlined_funcs", ()))
+        return [f for f in self.funcs.values() if f.parent in owners]
 
     def lambda_by_id(self, lid, ctx=None):
         # lambda ids are "lambda@file:line:col" possibly with "#in:<instantiation>" suffix
